@@ -25,12 +25,14 @@ pub struct SymCase {
 
 impl Case for SymCase {
     fn encode(&self) -> Value {
-        json!({"symbol": self.ds.encode(), "repr": (["PartialDSym", "SimpleDSym"][self.repr as usize]), "counters": [self.counters.0, self.counters.1]})
+        json!({"symbol": self.ds.encode(), "repr": (["PartialDSym", "SimpleDSym", "PartialDSym::from_fields (orbits numbered in reverse)", "SimpleDSym of PartialDSym::from_fields (orbits numbered in reverse)"][self.repr as usize % 4]), "counters": [self.counters.0, self.counters.1]})
     }
     fn decode(v: &Value) -> Option<Self> {
         let repr = match v.get("repr")?.as_str()? {
             "PartialDSym" => 0,
             "SimpleDSym" => 1,
+            "PartialDSym::from_fields (orbits numbered in reverse)" => 2,
+            "SimpleDSym of PartialDSym::from_fields (orbits numbered in reverse)" => 3,
             _ => return None,
         };
         let c = dec_usizes(v.get("counters")?)?;
@@ -76,6 +78,8 @@ fn roundtrip(c: &SymCase, obs: &mut Obs) -> Result<(), String> {
             }
             format!("{}", sym)
         }
+        2 => format!("{}", ds.to_partial_from_fields_reversed(c.counters.0)),
+        3 => format!("{}", SimpleDSym::from_partial(ds.to_partial_from_fields_reversed(c.counters.0), c.counters.1)),
         _ => {
             let set = SimpleDSet::from_partial(ds.to_partial_dset(), c.counters.0);
             let mut sym = PartialDSym::from(set);
@@ -452,7 +456,7 @@ pub fn run(ctx: &mut Ctx) {
         let (syms, all) = assignments(ds, 3, t.pick(2_000, 20_000));
         complete &= all;
         for (k, s) in syms.into_iter().enumerate() {
-            cases.push(SymCase { ds: s, repr: (k % 2) as u8, counters: if k % 3 == 0 { (1, 1) } else { (k % 17 + 1, k % 5 + 1) } });
+            cases.push(SymCase { ds: s, repr: (k % 4) as u8, counters: if k % 3 == 0 { (1, 1) } else { (k % 17 + 1, k % 5 + 1) } });
         }
     }
     let note = format!("all branching assignments v <= 3 on all {} D-sets (dim 2 size <= {}, dim 3 size <= {}, dim 1 size <= 6){}", dsets.len(), t.pick(4, 5), t.pick(3, 4), if complete { "" } else { " (capped per D-set: sampled where the cap applies)" });
@@ -465,7 +469,7 @@ pub fn run(ctx: &mut Ctx) {
     ctx.layer("random");
     let p = pool(t);
     let n = t.pick(30_000u32, 600_000u32);
-    let sym_case = |s: BoxedStrategy<DS>| (s, 0u8..2, 1usize..1000, 1usize..1000).prop_map(|(ds, repr, a, b)| SymCase { ds, repr, counters: (a, b) });
+    let sym_case = |s: BoxedStrategy<DS>| (s, 0u8..4, 1usize..1000, 1usize..1000).prop_map(|(ds, repr, a, b)| SymCase { ds, repr, counters: (a, b) });
     {
         let p = p.clone();
         ctx.run_prop(&SUB_ROUNDTRIP, move || sym_case(pooled_symbol(p.clone()).boxed()), n);
